@@ -2,6 +2,8 @@
 #define VP_CHECK_OBJECT
 #include "../vp.hpp"
 #include "../lattice.hpp"
+#include <sys/mman.h>
+#include <unistd.h>
 
 using namespace vp;
 
@@ -25,6 +27,20 @@ VP_DEFINE_VECTOR_TARGETS(ALLCLS)
 enum { C_AND, C_OR, C_XOR, C_LAND, C_LOR, C_AND_A, C_OR_A, C_XOR_A, C_NOT, C_INSERT, C_FROM_BOOL, C_FROM_ARRAY, C_ASSIGN_BOOL, C_VEC_ROUNDTRIP, C_SETBITS_NE0, C_FROM_VECTOR, C_NCMD };
 static const char* const CMDN[] = {"and", "or", "xor", "land", "lor", "and_assign", "or_assign", "xor_assign", "not", "insert", "from_bool", "from_array", "assign_bool",
                                    "mask_of_vector_of_mask", "set_bits_ne_0", "mask_from_vector"};
+
+// std::array<bool,N> operands of the array constructor are placed in front of a PROT_NONE page: flush against it (an over-read faults)
+// or one / three bytes before it (alignof(std::array<bool,N>) is 1, so an aligned-load instruction faults on them)
+static unsigned char* bool_arena_end() {
+    static unsigned char* end = nullptr;
+    if (!end) {
+        size_t pg = (size_t)sysconf(_SC_PAGESIZE);
+        unsigned char* p = (unsigned char*)mmap(nullptr, 3 * pg, PROT_READ | PROT_WRITE, MAP_PRIVATE | MAP_ANONYMOUS, -1, 0);
+        if (p == MAP_FAILED) std::abort();
+        mprotect(p + 2 * pg, pg, PROT_NONE);
+        end = p + 2 * pg;
+    }
+    return end;
+}
 
 static uint64_t splitmix(uint64_t x) { x += 0x9E3779B97F4A7C15ull; x = (x ^ (x >> 30)) * 0xBF58476D1CE4E5B9ull; x = (x ^ (x >> 27)) * 0x94D049BB133111EBull; return x ^ (x >> 31); }
 static uint64_t pattern_of(unsigned mode, uint32_t payload, unsigned W) {
@@ -183,8 +199,11 @@ template<class V> struct Machine {
             case C_FROM_BOOL: r[x.d] = M(bool(x.bit)); for (unsigned i = 0; i < W; ++i) res[i] = x.bit; break;
             case C_FROM_ARRAY: {
                 uint64_t p = pattern_of(x.mode, x.payload, W);
-                std::array<bool, W> arr; for (unsigned i = 0; i < W; ++i) { arr[i] = (p >> i) & 1; res[i] = arr[i]; }
-                r[x.d] = M(arr); o->classes |= 1u << CL_ARRAY_CTOR; break;
+                static const unsigned back[4] = {0, 1, 3, 16};
+                typedef std::array<bool, W> BA;
+                BA* ap = reinterpret_cast<BA*>(bool_arena_end() - sizeof(BA) - back[(x.payload >> 20) & 3] - ((x.lane & 1) ? 0 : 0));
+                for (unsigned i = 0; i < W; ++i) { (*ap)[i] = (p >> i) & 1; res[i] = (*ap)[i]; }
+                r[x.d] = M(*ap); o->classes |= 1u << CL_ARRAY_CTOR; break;
             }
             case C_ASSIGN_BOOL: { M t = r[x.d]; t = bool(x.bit); r[x.d] = t; for (unsigned i = 0; i < W; ++i) res[i] = x.bit; break; }
             case C_VEC_ROUNDTRIP: { V v{r[x.a]}; r[x.d] = M(v); for (unsigned i = 0; i < W; ++i) res[i] = model[x.a][i]; break; }
@@ -242,7 +261,7 @@ extern "C" void vp_enum(int tier, uint64_t seed, uint32_t shard, uint32_t nshard
         for (auto& pm : pats) {
             VpCase c; std::memset(&c, 0, sizeof c); c.target = t; c.op = OP_HISTORY;
             uint64_t* w = &c.v[0][0]; unsigned n = 0;
-            w[n++] = encode(C_FROM_ARRAY, 0, 0, 0, 0, 0, pm.first, pm.second);
+            w[n++] = encode(C_FROM_ARRAY, 0, 0, 0, 0, 0, pm.first, pm.first == 0 ? (pm.second | ((uint32_t)(pi & 3) << 20)) : pm.second);
             w[n++] = encode(C_NOT, 1, 0, 0, 0, 0, 0, 0);
             w[n++] = encode(C_XOR, 2, 0, 1, 0, 0, 0, 0);
             w[n++] = encode(C_VEC_ROUNDTRIP, 3, 0, 0, 0, 0, 0, 0);
